@@ -1657,6 +1657,7 @@ package xpath
 //@ func (*parser).parseSequence
 //@   mode int
 //@   props C06 C10 C17 C15
+//@   ensures[ends-on-paren@C17] p.r.prevtyp == itemRParens
 //@   requires[depth@C06] p != nil && 0 <= p.d && p.d <= 200
 //@   maypanic
 //@   modifies heap(F:scanner.*), p.d
@@ -2051,6 +2052,7 @@ package xpath
 //@ func (*parser).parsePredicate
 //@   mode int
 //@   props C06 C10 C17
+//@   ensures[ends-on-bracket@C17] p.r.prevtyp == itemRBracket
 //@   requires[depth@C06] p != nil && 0 <= p.d && p.d <= 200
 //@   maypanic
 //@   modifies heap(F:scanner.*), p.d
@@ -2080,6 +2082,7 @@ package xpath
 //@ func (*parser).parseRelativeLocationPath
 //@   mode int
 //@   props C06 C10 C17
+//@   ensures[not-after-slash@C17] noSlash(p.r.prevtyp)     // a relative path ends with a step, never with the slash that announces one
 //@   requires[depth@C06] p != nil && 0 <= p.d && p.d <= 200
 //@   maypanic
 //@   modifies heap(F:scanner.*), p.d
@@ -2099,6 +2102,8 @@ package xpath
 //@ func (*parser).parseStep
 //@   mode int
 //@   props C06 C10 C17 C14
+//@   ensures[not-after-slash@C17] noSlash(p.r.prevtyp)     // a step never ends on a slash
+//@   loop 0 invariant[not-after-slash@C17] noSlash(p.r.prevtyp)
 //@   ensures[principal-node-type@C14] is(result, *axisNode) && old(p.r.typ) != itemDot && old(p.r.typ) != itemDotDot && old(p.r.typ) != itemLParens && as(result, *axisNode).Prop == "" ==> as(result, *axisNode).typeTest == ite(as(result, *axisNode).AxisType == "attribute", AttributeNode, ElementNode)     // a name test or wildcard selects nodes of the principal node type of its axis: attributes on the attribute axis, elements on every other axis
 //@   loop 0 invariant[principal-node-type@C14] is(opnd, *filterNode) || (is(opnd, *axisNode) && old(p.r.typ) != itemDot && old(p.r.typ) != itemDotDot && as(opnd, *axisNode).Prop == "" ==> as(opnd, *axisNode).typeTest == ite(as(opnd, *axisNode).AxisType == "attribute", AttributeNode, ElementNode))
 //@   requires[depth@C06] p != nil && 0 <= p.d && p.d <= 200
@@ -2126,6 +2131,7 @@ package xpath
 //@ func (*parser).parseNodeTest
 //@   mode int
 //@   props C06 C10 C17 C14
+//@   ensures[ends-on-test@C17] p.r.prevtyp == itemName || p.r.prevtyp == itemStar || p.r.prevtyp == itemRParens
 //@   requires[depth@C06] p != nil && 0 <= p.d && p.d <= 200
 //@   maypanic
 //@   modifies heap(F:scanner.*), p.d
@@ -2143,9 +2149,12 @@ package xpath
 //@   ensures[progress@C06] pmeas(p.r) < old(pmeas(p.r))
 //@   loop * decreases pmeas(p.r)
 //@ ghostfield scanner.ntok     // history variable: how many tokens the scanner has delivered so far
+//@ ghostfield scanner.prevtyp  // history variable: the type of the token before the current one
+//@ define noSlash(t) = t != itemSlash && t != itemSlashSlash
 //@ func (*parser).next
 //@   mode int
-//@   props C06 C08
+//@   props C06 C08 C17
+//@   ensures[prev-token@C17] p.r.prevtyp == old(p.r.typ)
 //@   ensures[one-token@C08] p.r.ntok == old(p.r.ntok) + 1
 //@   requires p != nil
 //@   requires[swf@C17] swf(p.r)
@@ -2155,7 +2164,8 @@ package xpath
 //@   ensures[progress@C06] old(p.r.typ) != itemEOF ==> pmeas(p.r) < old(pmeas(p.r))
 //@ func (*parser).skipItem
 //@   mode int
-//@   props C06
+//@   props C06 C17
+//@   ensures[prev-token@C17] p.r.prevtyp == typ
 //@   requires p != nil
 //@   requires[swf@C17] swf(p.r)
 //@   ensures[swf@C17] swf(p.r)
@@ -2176,6 +2186,7 @@ package xpath
 //@   props C06 C17 C14
 //@   mode int
 //@   ghostset s.ntok = old(s.ntok) + 1
+//@   ghostset s.prevtyp = old(s.typ)
 //@   requires[swf@C17] swf(s)
 //@   maypanic
 //@   modifies heap(F:scanner.*)
